@@ -200,8 +200,10 @@ def Trend.remove (s : Trend) : Option Rat → Trend
 
 /-- `sum_t = (n*n + n) >> 1` -/
 def Trend.sumT (s : Trend) : Rat := (((s.n * s.n + s.n) / 2 : Nat) : Rat)
-/-- `(n * (n*n + n) * (2n + 1)) / 6.`  — this is `n·Σt²` -/
-def Trend.nSumTT (s : Trend) : Rat := ((s.n * (s.n * s.n + s.n) * (2 * s.n + 1) : Nat) : Rat) / 6
+/-- `n.f64() * ((n*n + n) * (2n + 1)).f64() / 6.`  — this is `n·Σt²` (after the F48 fix: the integer
+product stops at `2n³`; before it was `(n * (n*n + n) * (2n + 1)).f64() / 6.`, a `usize` product of
+about `2n⁴` that overflows from 55,109 observations on) -/
+def Trend.nSumTT (s : Trend) : Rat := (s.n : Rat) * (((s.n * s.n + s.n) * (2 * s.n + 1) : Nat) : Rat) / 6
 /-- `((n*n + n) * (2n + 1)) / 6.`  — `Σt²` (after the F21 fix) -/
 def Trend.sumTT (s : Trend) : Rat := (((s.n * s.n + s.n) * (2 * s.n + 1) : Nat) : Rat) / 6
 def Trend.divisor (s : Trend) : Rat := s.nSumTT - s.sumT * s.sumT
